@@ -343,33 +343,59 @@ def _pick_kernel(rnd, grow_left):
     return "X_plus_Y"
 
 
-def random_program(rnd, name="c24prog", ranks=1, ninvokes=None, style=None):
+def random_program(rnd, name="c24prog", ranks=1, ninvokes=None, style=None,
+                   p_dup=0.04):
     """Return a program description (JSON-able):
     {"name", "ranks", "steps": [{"assign": [var, int]} |
                                 {"invoke": <text of the call statement>,
                                  "meta": {...generator's own view...}}],
      "forms": [...]}.
     `style`: None (mixed), "plain" (distinct lower-case plain variables only:
-    the hazard-free twin)."""
+    the hazard-free twin).  With probability `p_dup` the program may repeat
+    the very same argument text inside one kernel call (PSyclone documents
+    that it refuses this)."""
     ninv = ninvokes or rnd.randint(1, 4)
     steps = []
     forms = set()
     idx_now = None
     grow_left = [1]
+    allow_dup = style != "plain" and rnd.random() < p_dup
+    plain = style == "plain"
+
+    def norm(t):
+        return "".join(t.split()).lower()
+
     for iv in range(ninv):
         ncalls = rnd.randint(1, 4)
         # a small working set per space makes repeats likely
-        ws = {"W3": rnd.sample(FIELDS_W3, rnd.randint(2, 4)),
-              "W0": rnd.sample(FIELDS_W0, rnd.randint(2, 3))}
-        if style == "plain":
+        ws = {"W3": rnd.sample(FIELDS_W3, rnd.randint(2, 5)),
+              "W0": rnd.sample(FIELDS_W0, rnd.randint(2, 4))}
+        if plain:
             ws = {"W3": ["f1", "f2", "f3", "fa_1"], "W0": ["g1", "g2", "g3"]}
-        wsr = rnd.sample(sorted(REALS), 2)
+        wsr = rnd.sample(sorted(REALS), 3)
         # idx can have only one value during an invoke
-        idx_inv = rnd.choice([1, 2]) if style != "plain" else None
+        idx_inv = None if plain else rnd.choice([1, 2])
         calls = []
         texts = []
         seen_stores = set()
-        written_scalars = set()
+
+        def spelled(st, f2):
+            """a spelling of st that is valid while idx == idx_inv"""
+            if plain:
+                return st
+            for _ in range(12):
+                f3 = set()
+                tx = spell(rnd, st, f3)
+                if "index_by_variable" in f3 and index_needed(st) != idx_inv:
+                    continue
+                f2 |= f3
+                return tx
+            if "(" in st:
+                f2.add("array_element")
+            if "%" in st:
+                f2.add("derived_type_component")
+            return st
+
         for kc in range(ncalls):
             kname = _pick_kernel(rnd, grow_left)
             if kname in KERNELS:
@@ -381,99 +407,64 @@ def random_program(rnd, name="c24prog", ranks=1, ninvokes=None, style=None):
                 space = rnd.choice(["W3", "W3", "W0"])
             args = []
             stores = []
-            used_here = []
+            norms_here = set()
+
+            def choose(pool):
+                """(store, text) whose normalised text is new in this kernel
+                call (unless the program is allowed a duplicate)"""
+                for _ in range(40):
+                    st = rnd.choice(pool)
+                    f2 = set()
+                    tx = spelled(st, f2)
+                    if norm(tx) in norms_here:
+                        if not (allow_dup and rnd.random() < 0.5):
+                            continue
+                        forms.add("same_text_twice_in_kernel_call")
+                    norms_here.add(norm(tx))
+                    forms.update(f2)
+                    return st, tx
+                # pool exhausted: widen it
+                rest = [s for s in (FIELDS_W3 if pool and pool[0] in FIELDS_W3
+                                    else FIELDS_W0 if pool and pool[0] in
+                                    FIELDS_W0 else sorted(REALS))
+                        if norm(s) not in norms_here]
+                st = rnd.choice(rest)
+                norms_here.add(norm(st))
+                return st, st
+
             for r in roles:
                 if r in "Ff":
-                    pool = ws[space]
-                    if style == "plain":
-                        cand = [s for s in pool if s not in used_here]
-                        st = rnd.choice(cand)
-                    else:
-                        st = rnd.choice(pool)
-                    used_here.append(st)
-                    if style == "plain":
-                        tx = st
-                    else:
-                        f2 = set()
-                        tx = spell(rnd, st, f2)
-                        if "index_by_variable" in f2 and \
-                                index_needed(st) != idx_inv:
-                            # idx has another value in this invoke: use the
-                            # literal index instead
-                            f3 = set()
-                            for _ in range(8):
-                                tx = spell(rnd, st, f3)
-                                if "index_by_variable" not in f3:
-                                    break
-                                f3 = set()
-                            else:
-                                tx = st
-                            f2 = f3
-                        forms |= f2
-                    stores.append(st)
-                    args.append(tx)
+                    st, tx = choose(ws[space])
                 elif r == "R":
-                    st = rnd.choice(sorted(REALS))
-                    written_scalars.add(st)
-                    stores.append(st)
-                    if style == "plain":
-                        args.append(st)
-                    else:
-                        f2 = set()
-                        tx = spell(rnd, st, f2)
-                        if "index_by_variable" in f2 and \
-                                index_needed(st) != idx_inv:
-                            tx = st
-                            f2 = {"array_element"}
-                        forms |= f2
-                        args.append(tx)
+                    st, tx = choose(sorted(REALS))
                 elif r == "r":
                     if rnd.random() < 0.45:
-                        lit = rnd.choice(REAL_LITERALS)
+                        st = rnd.choice(REAL_LITERALS)
                         forms.add("literal")
-                        stores.append(lit)
-                        args.append(lit if style == "plain" or
-                                    rnd.random() < 0.7 else lit.upper())
+                        tx = st if plain or rnd.random() < 0.7 else st.upper()
                     else:
-                        st = rnd.choice(wsr)
-                        stores.append(st)
-                        if style == "plain":
-                            args.append(st)
-                        else:
-                            f2 = set()
-                            tx = spell(rnd, st, f2)
-                            if "index_by_variable" in f2 and \
-                                    index_needed(st) != idx_inv:
-                                tx = st
-                                f2 = {"array_element"}
-                            forms |= f2
-                            args.append(tx)
+                        st, tx = choose(wsr)
                 else:  # "i"
                     if rnd.random() < 0.5:
-                        lit = rnd.choice(INT_LITERALS)
+                        st = tx = rnd.choice(INT_LITERALS)
                         forms.add("literal")
-                        stores.append(lit)
-                        args.append(lit)
                     else:
-                        st = rnd.choice(sorted(INTS))
-                        stores.append(st)
-                        if style == "plain":
-                            args.append(st)
-                        else:
-                            f2 = set()
-                            args.append(spell(rnd, st, f2))
-                            forms |= f2
+                        st, tx = choose(sorted(INTS))
+                stores.append(st)
+                args.append(tx)
             fs = [s for s, r in zip(stores, roles) if r in "Ff"]
             if len(set(fs)) < len(fs):
-                forms.add("repeated_within_kernel_call")
+                forms.add("same_field_twice_in_kernel_call")
             if seen_stores & set(fs):
                 forms.add("repeated_across_kernel_calls")
             seen_stores |= set(fs)
-            kspell = kname if (style == "plain" or rnd.random() < 0.6) \
+            kspell = kname if (plain or rnd.random() < 0.6) \
                 else _vary_case(rnd, kname)
             if kspell != kname:
                 forms.add("kernel_name_case_varied")
-            texts.append("%s(%s)" % (kspell, ", ".join(args)))
+            texts.append("%s(%s)" % (kspell, ",".join(
+                (a if rnd.random() < 0.3 and not plain else " " + a)
+                for a in args).strip()))
             calls.append({"kern": kname, "stores": stores})
         nm = None
         if rnd.random() < 0.5:
@@ -492,13 +483,10 @@ def random_program(rnd, name="c24prog", ranks=1, ninvokes=None, style=None):
             else:
                 parts.append(lab)
         stmt = "call invoke(" + ", &\n              ".join(parts) + ")"
-        uses_idx = "idx" in stmt.lower().replace("index", "")
-        if idx_inv is not None and (idx_now != idx_inv):
+        if idx_inv is not None and idx_now != idx_inv:
             steps.append({"assign": ["idx", idx_inv]})
             idx_now = idx_inv
-        steps.append({"invoke": stmt,
-                      "meta": {"name": nm, "calls": calls,
-                               "uses_idx": uses_idx}})
+        steps.append({"invoke": stmt, "meta": {"name": nm, "calls": calls}})
     return {"name": name, "ranks": ranks, "steps": steps,
             "forms": sorted(forms)}
 
@@ -594,14 +582,16 @@ def program_text(desc):
             out.append("  call c24_dump_i('%s', '%s', %s)" % (tag, st, st))
         out.append("  write(*,'(A)') 'END %s'" % tag)
         return out
-    L += dump("init")
+    L += dump("d0")
+    ninv = 0
     for st in desc["steps"]:
         if "assign" in st:
             L.append("  %s = %d_i_def" % (st["assign"][0], st["assign"][1]))
         elif "invoke" in st:
+            ninv += 1
             L += ["  " + ln for ln in st["invoke"].splitlines()]
+            L += dump("d%d" % ninv)
         else:
             raise ValueError("unknown step %r" % (st,))
-    L += dump("final")
     L.append("end program %s" % name)
     return "\n".join(L) + "\n"
